@@ -272,7 +272,7 @@ pub fn new_rt() -> tokio::runtime::Runtime {
     tokio::runtime::Builder::new_current_thread().enable_time().build().expect("runtime")
 }
 
-pub const APPEND_DEADLINE: Duration = Duration::from_secs(8);
+pub const APPEND_DEADLINE: Duration = Duration::from_secs(40); // generous: on a machine starved by other jobs appends were seen to take 5 s; C20 is the check about bounded time
 
 impl H {
     pub fn new(cfg: DbCfg, tag: &str) -> Result<H, String> {
@@ -452,7 +452,7 @@ impl H {
         let db = self.db().clone();
         let sid = StreamId::new(stream.to_string()).map_err(|e| e.to_string())?;
         self.rt.block_on(async move {
-            tokio::time::timeout(Duration::from_secs(10), async {
+            tokio::time::timeout(Duration::from_secs(40), async {
                 let mut it = db.read_stream(partition, sid, from, dir).await.map_err(|e| format!("read_stream: {e}"))?;
                 let mut out = Vec::new();
                 let mut guard = 0;
@@ -483,7 +483,7 @@ impl H {
     pub fn scan_partition(&self, partition: u16, from: u64, dir: IterDirection, batch: usize) -> Result<Vec<CommittedEvents>, String> {
         let db = self.db().clone();
         self.rt.block_on(async move {
-            tokio::time::timeout(Duration::from_secs(10), async {
+            tokio::time::timeout(Duration::from_secs(40), async {
                 let mut it = db.read_partition(partition, from, dir).await.map_err(|e| format!("read_partition: {e}"))?;
                 let mut out = Vec::new();
                 let mut guard = 0;
@@ -523,7 +523,7 @@ impl H {
                 let id = Uuid::from_u128(me.id);
                 let d = db.clone();
                 let p = *part;
-                match self.rt.block_on(async move { tokio::time::timeout(Duration::from_secs(10), d.read_event(p, id)).await }) {
+                match self.rt.block_on(async move { tokio::time::timeout(Duration::from_secs(40), d.read_event(p, id)).await }) {
                     Err(_) => out.push(problem("read_event-hang", format!("read_event({id}) timed out"))),
                     Ok(Err(e)) => out.push(problem("read_event-error", format!("read_event of acknowledged event seq {} failed: {e}", me.seq))),
                     Ok(Ok(None)) => out.push(problem("read_event-missing", format!("acknowledged event seq {} (tx #{ti}) not found by id", me.seq))),
@@ -536,7 +536,7 @@ impl H {
                 if k == 0 {
                     *evals += 1;
                     let d = db.clone();
-                    match self.rt.block_on(async move { tokio::time::timeout(Duration::from_secs(10), d.read_transaction(p, id)).await }) {
+                    match self.rt.block_on(async move { tokio::time::timeout(Duration::from_secs(40), d.read_transaction(p, id)).await }) {
                         Err(_) => out.push(problem("read_transaction-hang", "read_transaction timed out")),
                         Ok(Err(e)) => out.push(problem("read_transaction-error", format!("read_transaction of tx #{ti} failed: {e}"))),
                         Ok(Ok(None)) => out.push(problem("read_transaction-missing", format!("acknowledged tx #{ti} not found"))),
